@@ -1079,7 +1079,7 @@ Lemma parse_text_total letter digit (t : str) :
   end.
 Proof.
   unfold parse_text.
-  apply (parse_env_total (mk_env Utf8.decode letter digit t)).
+  apply (parse_env_total (mk_env Utf8M.decode letter digit t)).
   - reflexivity.
   - cbn [mk_env e_text e_fuel]. lia.
   - apply utf8_decoder_ok.
